@@ -451,7 +451,13 @@ class P:
                     self.eat()
                 final = ('return', e)
                 continue
-            if v in ('while', 'loop', 'match'):
+            if v == 'while':
+                self.eat()
+                c = self.expr(nostruct=True)
+                body = self.block()
+                stmts.append(('while', c, body))
+                continue
+            if v in ('loop', 'match'):
                 raise TranslateError('%s not supported' % v)
             e = self.expr()
             nv = self.peek()
@@ -632,6 +638,8 @@ def match_paren_whole(s):
                 return False
     return True
 
+RAW = '\0raw'
+
 class FnEmitter:
     """Translates one fn body into a sequence of Lean step defs + main def + ok def."""
     def __init__(self, mod, leanname, params, ret, body, generic_f=False):
@@ -648,6 +656,9 @@ class FnEmitter:
         self.order = []                 # lean vars in definition order
         self.vartype = {}               # lean var -> lean type string
         self.guards = []                # stack of guard prop strings (with fv)
+        self.hints = {}                 # rust var -> rust type, for `let` bindings of untyped literals
+        self.nloops = 0
+        self.fuelvar = None             # lean name of the fuel parameter once a loop has been seen
 
     # ---- naming
     def fresh(self, base):
@@ -1108,15 +1119,40 @@ class FnEmitter:
                 return
         raise TranslateError('assignment target')
 
+    def hint_for(self, pat):
+        """declared type of a `let` pattern whose variables are all listed in the per-function hints
+        (stands in for rustc's inference of untyped integer literals)."""
+        if pat[0] == 'pvar':
+            return self.hints.get(pat[1])
+        if pat[0] == 'ptuple':
+            ts = [self.hint_for(x) for x in pat[1]]
+            return ('agg', ts) if all(t is not None for t in ts) else None
+        return None
+
     def block(self, blk, env, want):
         _, stmts, final = blk
-        for st in stmts:
+        for si, st in enumerate(stmts):
             k = st[0]
+            if k == 'expr' and st[1][0] == 'if' and st[1][3] is None and st[1][2][2] is not None \
+                    and st[1][2][2][0] == 'return':
+                # `if c { …; return e; }  rest`  ==  `if c { …; e } else { rest }`
+                _, c, th, _el = st[1]
+                cv = self.ev(c, env, 'bool')
+                cvb = self.bind('c', cv)
+                self.guards.append((cvb.e, cvb.fv))
+                a = self.block(th, dict(env), want)
+                self.guards.pop()
+                self.guards.append(('¬ %s' % paren(cvb.e), cvb.fv))
+                b = self.block(('block', stmts[si + 1:], final), env, want)
+                self.guards.pop()
+                return self.merge(cvb, a, b)
             if k == 'let':
                 _, pat, ty, ex = st
                 w = self.norm_ty(ty) if ty is not None else None
                 if ex is None:
                     raise TranslateError('let without initialiser')
+                if w is None:
+                    w = self.hint_for(pat)
                 sv = self.ev(ex, env, w)
                 if w is not None and not sv.agg and not isinstance(w, tuple) and sv.ty != w:
                     raise TranslateError('let type mismatch %s vs %s' % (sv.ty, w))
@@ -1134,6 +1170,8 @@ class FnEmitter:
                     self.ifstmt(ex, env)
                 else:
                     raise TranslateError('expression statement')
+            elif k == 'while':
+                self.whilestmt(st[1], st[2], env)
             elif k == 'for':
                 _, pat, rng, body = st
                 if rng[0] != 'range':
@@ -1157,6 +1195,9 @@ class FnEmitter:
 
     def ifstmt(self, e, env):
         _, c, th, el = e
+        for b in (th, el):
+            if b is not None and b[2] is not None and b[2][0] == 'return':
+                raise TranslateError('early return in this position is not supported')
         cv = self.ev(c, env, 'bool')
         cvb = self.bind('c', cv)
         env_t = dict(env)
@@ -1175,6 +1216,168 @@ class FnEmitter:
                     continue
                 m = self.merge_env(cvb, a, b, env[n])
                 env[n] = self.bind(n, m) if not m.agg else self.bind(n, m)
+
+    # ---- loops
+    def assigned_names(self, blk, acc):
+        def lhs_name(lhs):
+            if lhs[0] == 'path' and len(lhs[1]) == 1:
+                return lhs[1][0]
+            if lhs[0] == 'index':
+                return lhs_name(lhs[1])
+            raise TranslateError('assignment target in loop')
+        for st in blk[1]:
+            if st[0] == 'assign':
+                n = lhs_name(st[1])
+                if n not in acc:
+                    acc.append(n)
+            elif st[0] == 'expr' and st[1][0] == 'if':
+                self.assigned_in_if(st[1], acc)
+            elif st[0] in ('while',):
+                self.assigned_names(st[2], acc)
+            elif st[0] == 'for':
+                self.assigned_names(st[3], acc)
+        if blk[2] is not None and blk[2][0] == 'if':
+            self.assigned_in_if(blk[2], acc)
+
+    def assigned_in_if(self, e, acc):
+        self.assigned_names(e[2], acc)
+        if e[3] is not None:
+            self.assigned_names(e[3], acc)
+
+    def fuel(self):
+        """the fuel parameter `N` of a function with loops: every `while` runs at most N iterations
+        (then returns the state it has reached; theorems quantify over N ≥ a proved bound and show that
+        the loop condition is false on the returned state)."""
+        if self.fuelvar is None:
+            v = self.fresh('N')
+            self.fuelvar = v
+            self.order.insert(0, v)
+            self.vartype[v] = 'Nat'
+            self.pvars.insert(0, v)
+        return self.fuelvar
+
+    def sub_emitter(self, suffix, names, env):
+        em = FnEmitter(self.mod, self.name + suffix, [], None, None, self.generic_f)
+        em.hints = self.hints
+        em.pvars = []
+        sub = {}
+        pmap = {}
+        for n in names:
+            sv = env[n]
+            if sv.agg:
+                raise TranslateError('aggregate %s live across a loop' % n)
+            psv = em.param_sv(n, sv.ty)
+            sub[n] = psv
+            pmap[n] = list(psv.fv)[0]
+        for n, v in env.items():
+            if isinstance(v, tuple):
+                sub[n] = v
+        return em, sub, pmap
+
+    def used_params(self, em):
+        used = set()
+        for st in em.steps:
+            if st[0] != RAW:
+                used |= set(st[1])
+        def fl(x):
+            if x.agg:
+                for y in x.items:
+                    fl(y)
+            else:
+                used.update(x.fv)
+        fl(em.result)
+        for (g, c, fv) in em.oks:
+            used |= set(fv)
+        return used
+
+    def whilestmt(self, cond, body, env):
+        if self.generic_f:
+            raise TranslateError('loop in a field-generic function')
+        self.nloops += 1
+        k = self.nloops
+        lvars = []
+        self.assigned_names(body, lvars)
+        lvars = [n for n in env if n in lvars and not isinstance(env[n], tuple)]
+        caps_all = [n for n in env if n not in lvars and not isinstance(env[n], tuple) and not env[n].agg]
+        names = lvars + caps_all
+        lname = '%s.loop%d' % (self.name, k)
+        # condition and body as functions of (loop variables, captured variables)
+        cem, cenv, cmap = self.sub_emitter('.loop%d_cond' % k, names, env)
+        cem.result = cem.ev(cond, cenv, 'bool')
+        cem.rty = 'bool'
+        bem, benv, bmap = self.sub_emitter('.loop%d_body' % k, names, env)
+        bem.block(body, benv, None)
+        bem.result = SV(items=[benv[n] for n in lvars])
+        bem.rty = ('agg', [env[n].ty for n in lvars]) if len(lvars) > 1 else env[lvars[0]].ty
+        if len(lvars) == 1:
+            bem.result = benv[lvars[0]]
+        if not lvars:
+            raise TranslateError('loop without loop-carried variables')
+        used = set()
+        for em, pm in ((cem, cmap), (bem, bmap)):
+            u = self.used_params(em)
+            used |= set(n for n in names if pm[n] in u)
+        caps = [n for n in caps_all if n in used]
+        keep = lvars + caps
+        need_fuel = cem.fuelvar is not None or bem.fuelvar is not None
+        for em, pm in ((cem, cmap), (bem, bmap)):
+            em.pvars = ([em.fuel()] if need_fuel else []) + [pm[n] for n in keep]
+        self.steps.append((RAW, cem.render()))
+        self.steps.append((RAW, bem.render()))
+        N = self.fuel()
+        lt = [self.lty(env[n].ty) for n in lvars]
+        ct = [self.lty(env[n].ty) for n in caps]
+        xs = ['x%d' % i for i in range(len(lvars))]
+        cs = ['c%d' % i for i in range(len(caps))]
+        nf = '(N : Nat) ' if need_fuel else ''
+        na = 'N ' if need_fuel else ''
+        capdecl = ' '.join('(%s : %s)' % (c, t) for c, t in zip(cs, ct))
+        tup = '(' + ', '.join(xs) + ')' if len(xs) > 1 else xs[0]
+        def proj(r, i):
+            if len(xs) == 1:
+                return r
+            return '%s%s%s' % (r, '.2' * i, '.1' if i < len(xs) - 1 else '')
+        args_xc = ' '.join(xs + cs)
+        rec = ' '.join([proj('r', i) for i in range(len(xs))])
+        prod = ' × '.join(lt)
+        arrow = ' → '.join(['Nat'] + lt)
+        self.steps.append((RAW, '\n'.join([
+            '/-- `while` loop %d of `%s`, at most `fuel` iterations (state reached so far when the fuel runs out) -/' % (k, self.name),
+            'def %s %s%s : %s → %s' % (lname, nf, capdecl, arrow, prod),
+            '  | 0, %s => %s' % (', '.join(xs), tup),
+            '  | fuel + 1, %s =>' % ', '.join(xs),
+            '    if %s_cond %s%s = true then' % (lname, na, args_xc),
+            '      let r := %s_body %s%s' % (lname, na, args_xc),
+            '      %s %s%s fuel %s' % (lname, na, ' '.join(cs) + (' ' if cs else ''), rec),
+            '    else %s' % tup])))
+        self.steps.append((RAW, '\n'.join([
+            'def %s_ok %s%s : %s → Bool' % (lname, nf, capdecl, arrow),
+            '  | 0, %s => true' % ', '.join(xs),
+            '  | fuel + 1, %s =>' % ', '.join(xs),
+            '    %s_cond_ok %s%s &&' % (lname, na, args_xc),
+            '    (if %s_cond %s%s = true then' % (lname, na, args_xc),
+            '      %s_body_ok %s%s &&' % (lname, na, args_xc),
+            '      (let r := %s_body %s%s' % (lname, na, args_xc),
+            '       %s_ok %s%s fuel %s)' % (lname, na, ' '.join(cs) + (' ' if cs else ''), rec),
+            '    else true)'])))
+        # call site
+        def arg(n):
+            sv = env[n]
+            return paren(sv.e if sv.ty != 'bool' else 'decide (%s)' % sv.e)
+        fv = frozenset([N]).union(*[env[n].fv for n in keep])
+        callargs = '%s%s%s %s' % ((N + ' ') if need_fuel else '', ' '.join(arg(n) for n in caps) + (' ' if caps else ''),
+                                  N, ' '.join(arg(n) for n in lvars))
+        self.ok('%s_ok %s = true' % (lname, callargs), fv)
+        tmp = self.fresh('lp')
+        args = [x for x in self.order if x in fv]
+        self.steps.append((tmp, args, prod, '%s %s' % (lname, callargs)))
+        self.lets.append((tmp, args))
+        self.order.append(tmp)
+        self.vartype[tmp] = prod
+        for i, n in enumerate(lvars):
+            ty = env[n].ty
+            pe = proj(tmp, i)
+            env[n] = self.bind(n, SV('%s = true' % pe, 'bool', [tmp]) if ty == 'bool' else SV(pe, ty, [tmp]))
 
     def merge_env(self, cv, a, b, old):
         if a is b:
@@ -1214,7 +1417,11 @@ class FnEmitter:
         def ptype(v):
             return self.vartype[v]
         # step defs
-        for (v, args, lt, ex) in self.steps:
+        for st in self.steps:
+            if st[0] == RAW:
+                out.append(st[1])
+                continue
+            (v, args, lt, ex) = st
             ps = ' '.join('(%s : %s)' % (a, ptype(a)) for a in args)
             out.append('def %s.s_%s %s%s : %s :=\n  %s' % (self.name, v, opar if 'O.' in ex else '', ps, lt, ex))
         def letchain():
@@ -1323,13 +1530,15 @@ class ModuleCtx:
                 self.out.append('def %s : %s := %s' % (ln, lean_const_type(v), lean_const(v)))
         return v
 
-    def add_fn(self, key, leanname, generic_f=False):
+    def add_fn(self, key, leanname, generic_f=False, hints=None):
         it = self.items.get(key)
         if it is None or it.kind != 'fn':
             raise TranslateError('fn %s not found in %s' % (key, self.path))
         try:
             name, params, ret, body = parse_fn(it)
-            em = FnEmitter(self, leanname, params, ret, body, generic_f).run()
+            em = FnEmitter(self, leanname, params, ret, body, generic_f)
+            em.hints = hints or {}
+            em.run()
             self.out.append(em.render())
         except TranslateError as ex:
             raise TranslateError('%s :: %s: %s' % (self.path, key, ex))
